@@ -30,3 +30,29 @@ Definition bad_lcases (cs : list lcase) : list nat := bad_idx check_lcase 0 cs.
 
 (* the hypothesis of link_no_panic, evaluated on every fragment list the real fragment() produced *)
 Definition bad_seg (cs : list lcase) : list nat := bad_idx (fun c => seg_ok (lc_frags c)) 0 cs.
+
+(* ---- per-run validation of order and exactly-once ------------------------------------------- *)
+(* the comments of the fragment list, in fragment order *)
+Definition frag_comments (fs : list frag) : list dec :=
+  flat_map (fun f => match f with FCom d _ _ => [d] | _ => [] end) fs.
+
+Definition is_comment_dec (d : dec) : bool := match d with DLine _ _ | DBlock _ _ _ => true | _ => false end.
+
+(* the comments in rendering order: decoration fragments in list order (the restorer walks the
+   points in the order the decorator emitted them: C03_restorer_mirrors_decorator), each
+   (node, point) once *)
+Fixpoint rendered_comments (fs : list frag) (decs : list (dkey * list dec)) (seen : list dkey) : list dec :=
+  match fs with
+  | [] => []
+  | FDec nid _ name _ _ :: r =>
+    if existsb (dkey_eqb (nid, name)) seen then rendered_comments r decs seen
+    else filter is_comment_dec (dget decs (nid, name)) ++ rendered_comments r decs ((nid, name) :: seen)
+  | _ :: r => rendered_comments r decs seen
+  end.
+
+(* every comment exactly once, in source order *)
+Definition order_ok (fs : list frag) : bool :=
+  let s := link fs in
+  l_panic s || list_eqb dec_eqb (rendered_comments (l_frags s) (l_decs s) []) (frag_comments fs).
+
+Definition bad_order (cs : list lcase) : list nat := bad_idx (fun c => order_ok (lc_frags c)) 0 cs.
